@@ -1,6 +1,6 @@
 """Correspondence driver `count`: the same election (BLT text + options) counted by /repo's droop and
 by the extracted Coq model; canonical traces are compared under a per-property scope."""
-import os, sys, signal, time, traceback, multiprocessing, json, re
+import os, sys, signal, time, traceback, multiprocessing, json, re, zlib
 from fractions import Fraction
 from common import import_droop, tok_i, tok_s, rng_for, Model, VERIF
 
@@ -344,6 +344,20 @@ def gen_options(rng, rule=None):
     return o
 
 # ------------------------------------------------------------------ implementation side
+BYSTANDER_BLT = '''9 3
+4 9 8 7 0
+3 8 9 1 0
+5 7 1 2 3 0
+2 6 5 4 0
+3 5 6 0
+4 4 3 2 1 0
+2 3 9 0
+3 2 8 6 0
+1 1 7 0
+0
+"Q1" "Q2" "Q3" "Q4" "Q5" "Q6" "Q7" "Q8" "Q9"
+"bystander"
+'''
 def vraw(V, v):
     if v is None: return '-'
     if isinstance(v, Fraction): return "%d/%d~%s" % (v.numerator, v.denominator, str(v))
@@ -369,6 +383,18 @@ def impl_count(blt, opts, timeout=20, want_E=False):
         E = Election(p, dict(opts))
     except Exception as ex:
         res['status'] = 'reject:' + type(ex).__name__; res['msg'] = str(ex)[:200]; return res
+    # for one count in four a bystander election -- other candidates, other ballots, the SAME options, those the ballot file
+    # embeds included (the arithmetic classes keep their parameters at class level) -- is constructed between constructing this election and counting it:
+    # a count may not depend on which other election objects are alive
+    if zlib.crc32(blt.encode('utf-8', 'replace')) % 4 == 0:
+        try:
+            bb = BYSTANDER_BLT
+            if p.options:       # the same effective configuration: the options this file embeds
+                bb = bb.replace('\n', '\n[droop %s]\n' % ' '.join(p.options), 1)
+            Election(ElectionProfile(data=bb), dict(opts))
+            res['bystander'] = 1
+        except Exception:
+            res['bystander'] = 0
     # observe ballots at every non-log action (from outside: no source hook)
     snaps = []
     snaps_obj = []
@@ -536,7 +562,7 @@ def _worker(args):
         r = impl_count(blt, opts, timeout=timeout, want_E=bool(oracle_names))
     except Exception as ex:
         return dict(idx=idx, status='harness-error', err=traceback.format_exc()[-800:], trace='', model=None, oracle=[])
-    out = dict(idx=idx, status=r['status'], trace=r['trace'], model=None, oracle=[], msg=r.get('msg'), exc_tb=r.get('exc_tb'), arith=r.get('arith'))
+    out = dict(idx=idx, status=r['status'], trace=r['trace'], model=None, oracle=[], msg=r.get('msg'), exc_tb=r.get('exc_tb'), arith=r.get('arith'), bystander=r.get('bystander'))
     if oracle_names and 'E' in r:
         import oracles
         for name in oracle_names:
